@@ -75,6 +75,11 @@ def slice_iter_next (it : Nat × Nat) : Option Nat × (Nat × Nat) :=
 def slice_iter_next_back (it : Nat × Nat) : Option Nat × (Nat × Nat) :=
   if it.1 < it.2 then (some (it.2 - 1), (it.1, it.2 - 1)) else (none, it)
 
+/-- `mem::zeroed::<T>()` for a zero-sized `T`: a value made up from nothing (the model's zero-sized elements carry an
+identity for the drop accounting; the made-up value has none, so the equalities about `IntoIter` are stated for
+`size_of::<T>() ≠ 0` and the zero-sized branch is characterised separately) -/
+def zst_any : Elem := default
+
 /-- drop glue of an owned local while unwinding (a second panic here would abort the process) -/
 def drop_elem (c : Cfg) (e : Elem) (s : VW) : VW := (s.1, (dropElem c s.2 e).1)
 
